@@ -14,3 +14,6 @@ register(Unit(P, "DELETE-EXACT/_commit_file_ops", cp.h_commit_file_ops("both"), 
 
 from contracts import helpers as _HLP  # noqa: E402
 _HLP.register_under("C15", ["HELPER/validate_data_files", "HELPER/validate_file_exists"])
+
+from contracts import commitpath as _cpl  # noqa: E402
+register(Unit("C15", "LIST-ENTRIES/create_manifest_list_file", _cpl.h_manifest_list_entries, functions=["file_manager:FileManager.create_manifest_list_file"], replay=None))
